@@ -300,8 +300,22 @@ fn single_faults(rep: &mut Report, rng: &mut Rng, h: &mut History, g: &mut Gen, 
                 return false;
             }
             other => {
-                // accepts-invalid / refuses-valid / unspecified: C03/C04's business; start again from the accepted operations
+                // accepts-invalid / refuses-valid / unspecified: whether the call should have been refused is C03/C04's business.
+                // But when the library did return an error, the store must be as it was, whatever the model expected
                 rep.count(&format!("not-judged/{}/{}", f.name, other.class().split('/').next().unwrap_or("")));
+                if matches!(r.outcome, crate::drive::Outcome::Err(_)) {
+                    if let Some(after) = snapshot(&h.store) {
+                        if let Some((cls, detail)) = leftover(&before, &after) {
+                            let leak = leak_class(&before, &after);
+                            // the recorded root cause (annotate() does not undo its earlier steps) applies here as well
+                            let explained = matches!(f.bad, Op::Annotate(_)) && !f.name.starts_with("known-shadowed") && leak.split('+').all(|x| ["datasets", "keys", "data", "textselections"].contains(&x));
+                            rep.violation(
+                                format!("C14/{}/leaves/{}", f.name, if explained { "explained:earlier-steps-of-annotate-are-not-rolled-back".to_string() } else { leak.clone() }),
+                                json!({"request": f.bad.to_json(), "error": r.outcome.to_json(), "model": other.class(), "first_difference": cls, "detail": detail, "history": h.replay_json()}),
+                            );
+                        }
+                    }
+                }
                 *h = twin_of(ok_ops, milestone, shrink);
                 continue;
             }
